@@ -537,6 +537,28 @@ pub fn c17_new_enumerated(idx: usize) -> NewCase {
     c
 }
 
+pub fn c17_deep_search(k: usize) -> NewCase {
+    let mut rng = fixed_rng(0xC17D, k);
+    let workers = [0usize, 1, 2][k % 3];
+    let spec = VanitySpec {
+        after_plant: 4,
+        fail_burst: 1,
+        length: LENGTHS[k / 3],
+        digits: 3,
+        case_mode: 0,
+        first_digit: None,
+        workers,
+        plant_at: [16usize, 23, 39][k % 3],
+        fail_at: None,
+        engine_e2: workers > 0,
+        default_account: true,
+    };
+    let mut c = gen_vanity(&mut rng, &spec);
+    c.reparse = false;
+    c.e3 = false;
+    c
+}
+
 const JUNK_NUM: [&str; 16] = [
     "0",
     "1",
